@@ -4,7 +4,6 @@ import os
 from vlib import flow, lean, repo, stream
 from vlib.common import REPO, SCRATCH, VERIF, log, sha, run as run_cmd
 
-REQUIRED = []
 MANIFEST = {
     "text": "Lean theorems over a step-level model of util/pcqueue.hh (two counting semaphores, two mutexes, ring and "
             "cursors, per-thread program counters at the synchronisation points; any number of producers, consumers, "
@@ -23,8 +22,8 @@ MANIFEST = {
                  "differential correspondence with the real code",
 }
 
-REQUIRED_FULL = ["KV.C17.sem_accounting", "KV.C17.never_over_cap", "KV.C17.fifo_exactly_once",
-            "KV.C17.per_pair_order", "KV.C17.no_deadlock"]
+REQUIRED = ["KV.C17.sem_accounting", "KV.C17.never_over_cap", "KV.C17.fifo_exactly_once",
+            "KV.C17.per_pair_order", "KV.C17.no_deadlock", "KV.C17.terminates", "KV.C17.maximal_run_delivers"]
 
 HARNESS_EXTRA = [REPO + "/util/exception.cc", REPO + "/util/integer_to_string.cc",
                  "-lboost_thread", "-lboost_system"]
